@@ -73,6 +73,7 @@ fn on_topic(f: &Focus, sig: &str, msg: &str, end: &End) -> bool {
         "empty-read-result" | "empty-read-effect" | "eof-result" | "eof-effect" | "read-result" => f.emptyread,
         "panic" | "recv-count" | "stream-misuse" => f.panics,
         "harness-window" => true,
+        "harness-prelude" => false,
         _ => true,
     }
 }
@@ -93,7 +94,22 @@ pub fn run_focus(
     check_100: bool,
     sched: &mut dyn FnMut(usize, usize, usize) -> ReadEv,
 ) -> Result<ConnCaseResult, Fail> {
-    match drive_prefix(stream, reqs, end, limit, buf_size(), check_100, sched, 4 * stream.len() + 64) {
+    run_focus_after(prop, focus, stream, reqs, end, limit, check_100, sched, &[])
+}
+
+/// same, after a prelude chunk that ends in a parse error (delivered in one read of its own)
+pub fn run_focus_after(
+    prop: &str,
+    focus: &Focus,
+    stream: &[u8],
+    reqs: &[RefRequest],
+    end: &End,
+    limit: Option<usize>,
+    check_100: bool,
+    sched: &mut dyn FnMut(usize, usize, usize) -> ReadEv,
+    prelude: &[u8],
+) -> Result<ConnCaseResult, Fail> {
+    match drive_prefix(stream, reqs, end, limit, buf_size(), check_100, sched, 4 * stream.len() + 64, prelude) {
         Ok(info) => Ok(ConnCaseResult { info, offtopic: false }),
         Err((sig, msg)) => {
             if on_topic(focus, &sig, &msg, end) {
@@ -119,7 +135,7 @@ pub fn render_conn(stream: &[u8], limit: Option<usize>, info: &RunInfo, end: &En
     )
 }
 
-fn sched_from_src<'a, 'b: 'a>(s: &'a mut Src<'b>, stream: &'a [u8], bounds: &'a [usize], faults: u32) -> impl FnMut(usize, usize, usize) -> ReadEv + use<'a, 'b> {
+pub fn sched_from_src<'a, 'b: 'a>(s: &'a mut Src<'b>, stream: &'a [u8], bounds: &'a [usize], faults: u32) -> impl FnMut(usize, usize, usize) -> ReadEv + use<'a, 'b> {
     let minwant = if stream.len() > 8192 { stream.len() / 256 } else { 1 };
     move |consumed, total, window| {
         let ctx = SchedCtx { consumed, total, window, bounds };
@@ -130,7 +146,7 @@ fn sched_from_src<'a, 'b: 'a>(s: &'a mut Src<'b>, stream: &'a [u8], bounds: &'a 
     }
 }
 
-fn ref_bounds(stream: &[u8], reqs: &[RefRequest]) -> Vec<usize> {
+pub fn ref_bounds(stream: &[u8], reqs: &[RefRequest]) -> Vec<usize> {
     let mut extra = Vec::new();
     for r in reqs {
         extra.push(r.headers_done_at);
@@ -141,7 +157,7 @@ fn ref_bounds(stream: &[u8], reqs: &[RefRequest]) -> Vec<usize> {
     boundaries(stream, &extra)
 }
 
-fn flat(info: &RunInfo) -> (Vec<Delivered>, Option<PKind>) {
+pub fn flat(info: &RunInfo) -> (Vec<Delivered>, Option<PKind>) {
     let mut d = Vec::new();
     let mut e = None;
     for (rs, k) in &info.transcript {
@@ -604,7 +620,7 @@ fn c01_plan(tier: Tier) -> Vec<Job> {
 pub fn c01() -> PropDef {
     PropDef {
         id: "C01",
-        subs: vec![("sched", c01_sched), ("cut1", c01_cut1), ("sweep", c01_sweep), ("e2_32", c01_e2_32)],
+        subs: vec![("sched", c01_sched), ("cut1", c01_cut1), ("sweep", c01_sweep), ("e2_32", c01_e2_32), ("raw", crate::props::raw::c01_raw)],
         plan: c01_plan,
         rule: "case = (byte stream from the request grammar with corruptions/truncation, payload limit, read schedule incl. EAGAIN/EINTR reads); oracle = REF in prefix form after every read + equality of transcripts across schedules; non-trivial = the stream delivers >=1 request or an error AND the schedule has >=2 data reads with >=1 cut strictly inside an element; distinct = hash of (stream, limit, read sizes)",
         assumptions: vec![
@@ -743,7 +759,7 @@ fn c02_plan(tier: Tier) -> Vec<Job> {
 pub fn c02() -> PropDef {
     PropDef {
         id: "C02",
-        subs: vec![("grammar", c02_grammar), ("edit", c02_edit)],
+        subs: vec![("grammar", c02_grammar), ("edit", c02_edit), ("raw", crate::props::raw::c02_raw)],
         plan: c02_plan,
         rule: "case = byte stream of 1..4 requests from the grammar with per-element corruptions (method, SP, URI, version, line ends, header lines, Content-Length spellings, body length), payload limit, one random read schedule; oracle = REF both directions (every REF request delivered with identical fields, nothing else; error class names the first offending element); non-trivial = REF outcome is not 'incomplete with zero requests'; distinct = hash of (stream, limit)",
         assumptions: vec![
@@ -794,13 +810,31 @@ fn c04_limits(input: &Input, obs: &mut Obs) -> Result<(), Fail> {
     }
     let (reqs, end) = ref_parse(&stream, buf_size(), l);
     let bounds = ref_bounds(&stream, &reqs);
+    // optionally the connection has already rejected something: the limit must still be L
+    const PRELUDES: [&[u8]; 5] = [
+        b"BAD / HTTP/1.1\r\n",
+        b"GET / HTTP/1.1\r\nnocolon\r\n",
+        b"PUT / HTTP/1.1\r\nContent-Length: 4294967295\r\n\r\n",
+        b"GET  HTTP/1.1\r\n",
+        b"PUT /x HTTP/1.1\r\nContent-Length: x\r\n",
+    ];
+    let prelude: &[u8] = if buf_size() >= 1024 && s.chance(80) {
+        let p = PRELUDES[s.below(PRELUDES.len())];
+        // the payload prelude only errors when its declared length exceeds L
+        if p.starts_with(b"PUT / HTTP/1.1\r\nContent-Length: 4294967295") && l >= u32::MAX as usize { &[] } else { p }
+    } else {
+        &[]
+    };
     let r = {
         let mut sch = sched_from_src(&mut s, &stream, &bounds, 20);
-        run_focus("C04", &F_C04, &stream, &reqs, &end, limit, false, &mut sch)?
+        run_focus_after("C04", &F_C04, &stream, &reqs, &end, limit, false, &mut sch, prelude)?
     };
     if r.offtopic {
         obs.label("offtopic_mismatch");
         return Ok(());
+    }
+    if !prelude.is_empty() {
+        obs.label("limit_checked_after_a_parse_error");
     }
     // a delivered body never exceeds the limit or its declared length
     for (rs, _) in &r.info.transcript {
@@ -948,7 +982,7 @@ fn c04_e2_32(input: &Input, obs: &mut Obs) -> Result<(), Fail> {
 }
 
 pub fn c04_conn_subs() -> Vec<(&'static str, SubFn)> {
-    vec![("limits", c04_limits), ("lines", c04_lines), ("e2_32", c04_e2_32)]
+    vec![("limits", c04_limits), ("lines", c04_lines), ("e2_32", c04_e2_32), ("raw", crate::props::raw::c04_raw)]
 }
 
 pub fn c04_conn_jobs(tier: Tier) -> Vec<Job> {
@@ -1057,7 +1091,7 @@ fn c13_sweep_enum(tier: Tier, shard: u64, nshards: u64, f: &mut dyn FnMut(&[u64]
 }
 
 pub fn c13_conn_subs() -> Vec<(&'static str, SubFn)> {
-    vec![("expect", c13_expect), ("e2_32", c13_e2_32), ("sweep", c13_sweep)]
+    vec![("expect", c13_expect), ("e2_32", c13_e2_32), ("sweep", c13_sweep), ("raw", crate::props::raw::c13_raw)]
 }
 
 pub fn c13_conn_jobs(tier: Tier) -> Vec<Job> {
